@@ -341,6 +341,11 @@ pub enum FaultKind {
     Relabel { to: Proto },
     /// v3.public: s -> n - s
     SigNegateS,
+    /// one half of the signature (0 = r / R, 1 = s / S) overwritten: pattern 0 = zeros, 1 = 0xff…, 2 = the
+    /// group order (P-384 n big-endian, Ed25519 L little-endian; random for RSA), 3 = order - 1
+    SigFill { half: u8, pattern: u8 },
+    /// the footer segment replaced by base64url of raw bytes (not necessarily UTF-8)
+    FooterReplaceRaw { hex: String },
     /// overwrite `len` decoded bytes at `at` with seeded random bytes
     RandomEdit { seg: Seg, at: usize, hex: String },
     /// re-write a segment from the URL-safe to the standard base64 alphabet ('-' -> '+', '_' -> '/')
@@ -430,6 +435,13 @@ pub enum Op {
         assertion: Option<String>,
         out: u32,
     },
+    /// C04, v3.public: key slot `slot` is overwritten with a public key RECOVERED from the signature of
+    /// message `msg` (ECDSA signatures verify under two keys): the one that is not the signer's.  The signed
+    /// message is taken as PAE(pk, h, m, f, i) (`with_pk`, the v3 layout) or PAE(h, m, f, i).
+    RecoverKey { msg: u32, signer: usize, assertion: Option<String>, with_pk: bool, recid: u8, slot: usize },
+    /// the entropy draws of the NEXT build are served from this recording (hex per draw): how a violation seen
+    /// in the observe arm (real OS entropy) is turned into an exactly replayable run
+    ScriptEntropy { draws: Vec<String> },
     /// observe arm of C10: `n` direct draws from the library's random-key constructor (the one every local
     /// builder takes its nonce material from), real OS entropy passing through the hook unmodified
     DrawKeys { n: u32 },
@@ -587,6 +599,8 @@ pub enum Obs {
     NewVerifier { ok: bool, notes: Vec<String> },
     Deliver { main: DeliverObs, twin: Option<DeliverObs>, control: Option<DeliverObs> },
     ForeignIssue { issued: bool },
+    Scripted,
+    RecoverKey { public_hex: Option<String> },
     Draws { ok: u32, failed: u32, distinct: u32, constant_positions: u32, worst_bit_dev_centisigma: u32 },
     Reconfigure { applied: bool },
     /// a prefix-of-current reconfiguration, resolved to the plain operation it amounted to
